@@ -306,11 +306,33 @@ NPROC = max(2, min(16, os.cpu_count() or 4))
 STREAM_TIMEOUT = [900]      # seconds for one harness / driver invocation (raised for the thorough tier)
 
 
-def harness_lines(args, timeout=None):
+def _harness_one(args, timeout=None):
     rc, out, err = sh([HARNESS] + args, timeout=timeout or STREAM_TIMEOUT[0])
     if rc != 0:
         raise RuntimeError("harness %s failed: %s" % (args[:2], err[-300:]))
     return out
+
+
+def harness_lines(args, timeout=None):
+    """one harness invocation; in the thorough tier a sampling job (`--cases N --seed S`, N large) is split into
+    NPROC jobs with N/NPROC cases each and seeds S, S+104729, ... run as parallel processes (the harness is
+    single-threaded); their outputs are concatenated in order"""
+    if CURRENT_TIER[0] == "thorough" and "--cases" in args and "--seed" in args and args[0] in ("oracle", "trace", "gen", "mut", "src", "hist", "heap"):
+        ci, si = args.index("--cases"), args.index("--seed")
+        try:
+            n, sd = int(args[ci + 1]), int(args[si + 1])
+        except ValueError:
+            return _harness_one(args, timeout)
+        if n >= 4 * NPROC and "--exhaustive" not in args:
+            from concurrent.futures import ThreadPoolExecutor
+            def sub(j):
+                a = list(args)
+                a[ci + 1] = str(n // NPROC + (1 if j < n % NPROC else 0))
+                a[si + 1] = str(sd + 104729 * j)
+                return _harness_one(a, timeout)
+            with ThreadPoolExecutor(max_workers=NPROC) as ex:
+                return "".join(ex.map(sub, range(NPROC)))
+    return _harness_one(args, timeout)
 
 
 def _drive_one(req_text, timeout):
@@ -526,10 +548,10 @@ TIERS = {
     "quick": dict(oracle=dict(default=1500, small=1500, mid=60, memo=6, big=6), trace=dict(default=400, small=600, memo=3),
                   probe_depth=3, probe_deep=0, gen=dict(default=1200, small=800), gen_exhaustive=1, mut=4000, src=1500,
                   src_exhaustive2=False, hist=6000, hist_len=4),
-    "thorough": dict(oracle=dict(default=30000, small=30000, mid=1500, memo=120, big=24, large=2),
-                     trace=dict(default=8000, small=8000, memo=40),
-                     probe_depth=3, probe_deep=4, gen=dict(default=20000, small=12000, mid=300), gen_exhaustive=2, mut=120000,
-                     src=40000, src_exhaustive2=True, hist=20000, hist_len=8),
+    "thorough": dict(oracle=dict(default=120000, small=120000, mid=6000, memo=240, big=64, large=8),
+                     trace=dict(default=16000, small=24000, memo=64),
+                     probe_depth=3, probe_deep=4, gen=dict(default=80000, small=48000, mid=1200), gen_exhaustive=2, mut=480000,
+                     src=160000, src_exhaustive2=True, hist=80000, hist_len=8),
 }
 
 
@@ -611,6 +633,53 @@ def stream_oracle(cx, profiles=None, mult=1, stop_on_first=False):
                 if stop_on_first:
                     return
     cx.cov["distinct_nontrivial"] = len(cx.seen)
+
+
+def directed_values(cx):
+    """directed argument values: for every protocol, fuzzer bytes (computed by the model's `steer`) that make the
+    generator emit FLOAT / BINFLOAT with special doubles (signed zeros, infinities, NaNs, subnormal, extremes, values
+    printed with an exponent) and every int-like opcode with special i32 values; the outputs are judged by the
+    oracle like any other.  Random sampling practically never draws these exact values."""
+    import struct
+    f_specials = [0x0, 0x8000000000000000, 0x7ff0000000000000, 0xfff0000000000000, 0x7ff8000000000000, 0xfff8000000000001,
+                  0x1, 0x800fffffffffffff, 0x7fefffffffffffff, 0x0010000000000000, 0x3ff0000000000000, 0xbff8000000000000,
+                  0x4341c37937e08000, 0x3eb0c6f7a0b5ed8d, 0x43e0000000000000, 0xc3e0000000000000, 0x7e37e43c8800759c, 0x01a56e1fc2f8f359]
+    i_specials = [0, 1, 0xffffffff, 0x7fffffff, 0x80000000, 255, 256, 65535, 65536, 0x80, 0xff00]
+    reqs, meta = [], []
+    for p in range(6):
+        cfg = "P=%d unsafe=0 ext=0 buf=0 mask=0 rate=0000000000000000" % p
+        for b in f_specials:
+            le = struct.pack("<Q", b).hex()
+            for op in (["Float"] + (["BinFloat"] if p >= 1 else [])):
+                reqs.append("steer %s plan=%s:%s" % (cfg, op, le)); meta.append(cfg)
+        for v in i_specials:
+            le = struct.pack("<I", v).hex()
+            for choice in range(7 if p >= 2 else (5 if p == 1 else 2)):
+                reqs.append("steer %s plan=Int:%02x%s" % (cfg, choice, le)); meta.append(cfg)
+    outs = [l for l in drive("\n".join(reqs) + "\n") if l.startswith("steer ")]
+    if len(outs) != len(reqs):
+        cx.corr.append(dict(stream="directed", count=1, first="steer answered %d of %d" % (len(outs), len(reqs))))
+        return
+    lines = []
+    for k, (cfg, o) in enumerate(zip(meta, outs)):
+        if o.startswith("steer ok"):
+            lines.append("id=%d %s min=1 max=1 warm=0 mode=arb:%s" % (k, cfg, toks(o).get("bytes", "-")))
+    rc, req, err = sh([HARNESS, "oracle", "--stdin"], inp="\n".join(lines) + "\n", timeout=STREAM_TIMEOUT[0])
+    if rc != 0:
+        cx.corr.append(dict(stream="directed", count=1, first="harness oracle --stdin failed: " + err[-200:]))
+        return
+    rl = [l for l in req.split("\n") if l.startswith("oracle ")]
+    vs = [toks(l) for l in drive(req) if l.startswith("oracle ")]
+    key = cx.P["key"]
+    cx.cov["directed_value_cases"] = len(rl)
+    for r, v in zip(rl, vs):
+        cx.cov["evaluations"] += 1
+        cx.bump("directed-values")
+        if v.get("gen") != "ok":
+            if key == "gen":
+                cx.failing.append(("oracle", case_of(r), "generation_did_not_return_a_pickle:" + v.get("gen", "?")))
+        elif key != "gen" and v.get(key, "").startswith("FAIL"):
+            cx.failing.append(("oracle", case_of(r), v[key]))
 
 
 def stream_s1(cx):
@@ -1088,6 +1157,11 @@ def check_property(prop, tier, seed):
         stream_oracle(cx)
     except Exception as e:
         cx.corr.append(dict(stream="oracle", count=1, first="the oracle stream could not run: %s" % str(e)[:600]))
+    if prop in ("C04", "C09", "C01"):
+        try:
+            directed_values(cx)
+        except Exception as e:
+            cx.corr.append(dict(stream="directed", count=1, first="directed-value family could not run: %s" % str(e)[:400]))
     for st in P["streams"]:
         try:
             STREAMS[st](cx)
@@ -1271,13 +1345,49 @@ def check_c07(prop, tier, seed):
             cx.failing.append(("threads", case_of(l), "concurrent_generation_differs_from_sequential:" + " ".join(l.split(" ")[-2:])))
             break
     cov["threads"] = 16
+    # (3b) time dilation: the same generation, once undisturbed and once with the whole process suspended for a few
+    # seconds in the middle (SIGSTOP/SIGCONT): the wall clock passes, the CPU time does not.  Anything that consults
+    # the clock (a time budget, a time-derived choice) makes the two outputs differ.
+    import signal
+    def run_case_paused(case_line, pause_after, pause_for):
+        pr = subprocess.Popen([HARNESS, "case"] + case_line.split(" "), stdout=subprocess.PIPE, stderr=subprocess.DEVNULL, env=ENV, text=True)
+        if pause_for > 0:
+            time.sleep(pause_after)
+            try:
+                os.kill(pr.pid, signal.SIGSTOP)
+                time.sleep(pause_for)
+            finally:
+                try:
+                    os.kill(pr.pid, signal.SIGCONT)
+                except ProcessLookupError:
+                    pass
+        out_, _ = pr.communicate(timeout=600)
+        return toks(out_.strip().split("\n")[-1] if out_.strip() else "").get("result", "?")
+    nops = 14000 if tier == "quick" else 30000
+    for cl in ("id=0 P=4 unsafe=0 mu=0 ext=1 buf=0 min=%d max=%d mask=0 rate=0000000000000000 warm=0 mode=rand:%d" % (nops, nops, seed + 7),
+               "id=0 P=2 unsafe=0 mu=0 ext=0 buf=0 min=%d max=%d mask=21 rate=3fe0000000000000 warm=0 mode=arb:%s" % (nops, nops, "5a" * 3000)):
+        try:
+            plain = run_case_paused(cl, 0, 0)
+            again = run_case_paused(cl, 0, 0)
+            if plain != again:
+                cx.failing.append(("oracle", cl, "two_fresh_processes_return_different_bytes_for_the_same_case:%s..:%s.." % (plain[:24], again[:24])))
+                break
+            paused = run_case_paused(cl, 0.12, 2.6 if tier == "quick" else 6.0)
+            cov["evaluations"] += 3
+            cx.bump("time-dilation")
+            if plain != paused or not plain.startswith("ok:"):
+                cx.failing.append(("oracle", cl, "output_differs_when_the_process_is_suspended_mid-generation(wall_clock_dependence):plain=%s..:paused=%s.." % (plain[:24], paused[:24])))
+                break
+        except Exception as e:
+            cx.corr.append(dict(stream="time-dilation", count=1, first=str(e)[:300]))
     # (4) S3: fuzzer-bytes mode equals the model, which has no hidden input
     try:
         stream_s3(cx)
     except Exception as e:
         cx.corr.append(dict(stream="S3", count=1, first=str(e)[:400]))
+    cov["input_distribution"] = cx.hist
     cov["not_exhibited_by_the_model"] = ["OS randomness / wall clock / address dependence inside the compiled Rust is observed by the process, isolation and thread comparisons above, not proved absent",
-                                          "seeded (ChaCha8) mode is compared process-to-process; the model does not port ChaCha"]
+                                          "seeded (ChaCha8) mode is compared process-to-process and, through the exact port, with the model (S3)"]
     cov["impl_vs_oracle_failures"] = len(cx.failing)
     cov["model_vs_impl_disagreements"] = sum(c["count"] for c in cx.corr)
     if cx.failing:
@@ -1491,10 +1601,11 @@ def cycle_plans(p):
         out.append(pl + ["Pop"])
     # long programs around a cycle: bookkeeping that is swept, compacted or capped once many cells were created
     # (hundreds of pushes before the cycle is closed, after it was popped, or both)
-    pad = ["None", "Pop"] * 270
-    for x in "ldo":
+    pads = [["None", "Pop"] * 270] + ([["None", "Pop"] * 4700] if p in (2, 4) else [])
+    for pad in pads:
+      for x in ("ldo" if len(pad) < 1000 else "l"):
         base = recipe(x, p)
-        if base is None or (x == "o" and p < 2 and False):
+        if base is None:
             continue
         cl = {"l": ["Dup", "Append"], "o": ["Dup", "Build"], "d": ["Dup", "Dup", "SetItem"]}[x]
         core = base + cl
